@@ -230,6 +230,9 @@ func init() {
 							}
 						}
 					}
+					for k := 4; k <= 100; k++ { // long identifiers (the 31-byte value clip and fixed-size windows)
+						words = append(words, strings.Repeat("a", k), strings.Repeat("ab_", k)[:k], "z"+strings.Repeat("9", k-1))
+					}
 					words = append(words, c14Words...)
 					words = append(words, "information", "customer", "address", "telephone", "monday", "reference", "a_very_long_identifier_of_31_by", "an_identifier_longer_than_31_bytes_x")
 					w.Each(len(words), func(i int) {
